@@ -53,8 +53,13 @@ def make_model(case):
             preds.append(replacement.aliased("omega"))
     else:
         preds = [MotifChange(x, y, forward_only=bool(d)).aliased(nm) for nm, x, y, d in spec]
-    cls = {"nuc": SM.TimeReversibleNucleotide, "dinuc": SM.TimeReversibleDinucleotide, "codon": SM.TimeReversibleCodon}[b["kind"]]
+    cls = {"nuc": SM.TimeReversibleNucleotide, "dinuc": SM.TimeReversibleDinucleotide, "codon": SM.TimeReversibleCodon,
+           "trinuc": SM.TimeReversibleTrinucleotide}[b["kind"]]
     kw.setdefault("recode_gaps", False)
+    if b.get("model_gaps"):
+        # the gap is a state of its own (5 / 25 / 125 states); cogent3 requires the tuple motif-prob model here
+        kw["model_gaps"] = True
+        kw["recode_gaps"] = False
     if b.get("mprob_model"):
         kw["mprob_model"] = b["mprob_model"]
     if b.get("motifs"):
@@ -84,16 +89,32 @@ def build_lf(case, tree_obj=None, aln_obj=None, before_alignment=None):
         aln = aln.take_seqs([n for n, _ in case["aln"]])
     bins = case.get("bins")
     sm = make_model(case)
+    fa = case.get("from_align")
+    lfkw = {"motif_probs_from_align": True} if fa else {}
     if bins and bins.get("hmm"):
-        lf = sm.make_likelihood_function(tree, bins=bins["n"], sites_independent=False)
+        lf = sm.make_likelihood_function(tree, bins=bins["n"], sites_independent=False, **lfkw)
     else:
-        lf = sm.make_likelihood_function(tree, bins=bins["n"]) if bins else sm.make_likelihood_function(tree)
+        lf = sm.make_likelihood_function(tree, bins=bins["n"], **lfkw) if bins else sm.make_likelihood_function(tree, **lfkw)
     if before_alignment is not None:
         before_alignment(tree)      # history step between make_likelihood_function and set_alignment
-    lf.set_alignment(aln)
+    if fa and fa.get("pseudocount") is not None:
+        lf.set_alignment(aln, motif_pseudocount=fa["pseudocount"])
+    else:
+        lf.set_alignment(aln)
     names = lf.get_param_names()
     has_mprobs = "mprobs" in names or "psmprobs" in names
-    if case.get("mprobs") and has_mprobs:
+    if fa:
+        pass    # motif probabilities come from the alignment (constant, the default): nothing is set explicitly
+    elif "psmprobs" in names and not case.get("mprobs"):
+        # position-specific monomer probabilities: a different fixed distribution at every position of the word
+        ia = [str(m) for m in lf.model.mprob_model.get_input_alphabet()]
+        r2 = random.Random(case.get("pseed", 0) + 7919)
+        import numpy as _np
+
+        for pos in range(lf.model.get_alphabet().get_motif_len()):
+            w = [r2.randint(1, 9) for _ in ia]
+            lf.set_param_rule("psmprobs", position=str(pos), value=_np.array([x / float(sum(w)) for x in w]), is_constant=True)
+    elif case.get("mprobs") and has_mprobs:
         lf.set_motif_probs(case["mprobs"])
     elif has_mprobs and case.get("fix_mprobs", True) and case.get("moltype", "dna") != "protein" \
             and not getattr(lf.model, "_equal_motif_probs", False) and case["model"] not in ("JC69", "K80"):
